@@ -453,3 +453,106 @@ class InterpUnit(Unit):
 
     def label(self, c, o):
         return c["method"]
+
+
+# ------------------------------------------------------------------------------------------
+class InterpOracleUnit(Unit):
+    """'cubic' and 'spline': SciPy does the mathematics; the repository's part is forwarding x, y, the keyword arguments and the
+    new grid, and returning SciPy's values.  Oracle only (argument recorders around CubicSpline / splrep / BSpline)."""
+    name = "interp_oracle"
+
+    def gen(self, rng, tier):
+        cases = []
+        k = 80 if tier == "quick" else 800
+        for _ in range(k):
+            N = rng.randint(4, 14)
+            x = gens.sorted_x(rng, N)
+            y = gens.values(rng, N, rng.choice(["dyadic", "int", "ties"]))
+            M = rng.randint(1, 12)
+            nx = sorted(x[0] + (x[-1] - x[0]) * rng.randint(-8, 72) / 64 for _ in range(M))
+            method = rng.choice(["cubic", "spline"])
+            kw = {}
+            if method == "cubic" and rng.random() < 0.4:
+                kw = {"bc_type": rng.choice(["natural", "clamped", "not-a-knot"])}
+            if method == "spline" and rng.random() < 0.4:
+                kw = {"k": rng.choice([1, 2, 3])} if rng.random() < 0.5 else {"s": 0.0}
+            c = {"x": x, "y": y, "new_x": nx, "method": method, "kw": kw}
+            if rng.random() < 0.25:
+                c["new_x"] = list(x)
+            if rng.random() < 0.2:
+                a, b = gens.dyadic(rng, -4, 4, 2), gens.dyadic(rng, -4, 4, 2)
+                c["y"] = [a * v + b for v in x]
+                c["affine"] = [a, b]
+            cases.append(c)
+        return cases
+
+    def run(self, c):
+        import traffic_weaver.process as P
+        import scipy.interpolate as SI
+        calls = []
+        saved = (P.CubicSpline, P.splrep, P.BSpline)
+
+        def rec_cubic(x, y, **kw):
+            calls.append({"fn": "CubicSpline", "x": np.asarray(x, dtype=float).tolist(), "y": np.asarray(y, dtype=float).tolist(), "kw": {k: repr(v) for k, v in kw.items()}})
+            return saved[0](x, y, **kw)
+
+        def rec_splrep(x, y, **kw):
+            calls.append({"fn": "splrep", "x": np.asarray(x, dtype=float).tolist(), "y": np.asarray(y, dtype=float).tolist(), "kw": {k: repr(v) for k, v in kw.items()}})
+            return saved[1](x, y, **kw)
+        P.CubicSpline, P.splrep = rec_cubic, rec_splrep
+        x = np.array(c["x"], dtype=float)
+        y = np.array(c["y"], dtype=float)
+        nx = np.array(c["new_x"], dtype=float)
+        try:
+            import warnings
+            with warnings.catch_warnings():
+                warnings.simplefilter("ignore")
+                r = P.interpolate(x, y, nx, method=c["method"], **c["kw"])
+                if c["method"] == "cubic":
+                    exp = SI.CubicSpline(x, y, **c["kw"])(nx)
+                else:
+                    exp = SI.BSpline(*SI.splrep(x, y, **c["kw"]))(nx)
+            return {"out": np.asarray(r, dtype=float).tolist(), "expected": np.asarray(exp, dtype=float).tolist(), "calls": calls}
+        except Exception as e:
+            return {"exc": exn_name(e), "exc_msg": str(e)[:100], "calls": calls}
+        finally:
+            P.CubicSpline, P.splrep, P.BSpline = saved
+
+    def oracle(self, c, o):
+        F = []
+
+        def fail(aspect, what):
+            F.append(Failure(aspect=aspect, what="interpolate(%s, %s): %s (x=%s y=%s new_x=%s)" % (c["method"], c["kw"], what, c["x"], c["y"], c["new_x"]),
+                             signature={"aspect": aspect, "method": c["method"]}))
+        if "exc" in o:
+            fail("raises", o["exc_msg"])
+            return F
+        if len(o["calls"]) != 1:
+            fail("forwarding", "library constructor called %d times" % len(o["calls"]))
+            return F
+        call = o["calls"][0]
+        if call["x"] != c["x"] or call["y"] != c["y"]:
+            fail("forwarding", "x / y not handed to SciPy unchanged")
+        if call["kw"] != {k: repr(v) for k, v in c["kw"].items()}:
+            fail("forwarding", "keyword arguments %s reached SciPy, %s were given" % (call["kw"], c["kw"]))
+        if len(o["out"]) != len(c["new_x"]) or not close(o["out"], o["expected"], 1e-12):
+            fail("values", "returned values are not SciPy's values at the new grid")
+            return F
+        interp_like = c["method"] == "cubic" or c["kw"].get("s", 0.0) == 0.0
+        if interp_like and c["kw"].get("k", 3) >= 1:
+            for v, r in zip(c["new_x"], o["out"]):
+                if v in c["x"]:
+                    yv = c["y"][c["x"].index(v)]
+                    if abs(r - yv) > 1e-7 * (1 + max(abs(t) for t in c["y"])):
+                        fail("at-nodes", "at node %s returned %r, sample is %r" % (v, r, yv))
+                        break
+        if "affine" in c and interp_like:
+            a, b = c["affine"]
+            for v, r in zip(c["new_x"], o["out"]):
+                if c["x"][0] <= v <= c["x"][-1] and abs(r - (a * v + b)) > 1e-7 * (1 + abs(a * v + b) + max(abs(t) for t in c["y"])):
+                    fail("affine", "affine data not reproduced at %s: %r vs %r" % (v, r, a * v + b))
+                    break
+        return F
+
+    def label(self, c, o):
+        return c["method"] + (":kw" if c["kw"] else "")
